@@ -176,6 +176,7 @@ BisectInvariant ==
 \*   "ctor"  AngularGrid(degree=cq | size=cq, method=cm)  -> .degree, .size
 \*   "conv"  AngularGrid.convert_angular_sizes_to_degrees -> degree (size logged as 0)
 \*   "atom"  AtomGrid(rgrid, degrees=[..cq..] | sizes=[..cq..]).degrees and the shell size from .indices
+\*   "pruned" AtomGrid.from_pruned with the same request cq in every sector: every shell's degree / size
 \* rejected requests are logged with degree = size = -1.
 Observed == IF cq >= 0 /\ cq + 1 <= Len(Obs[cm][ck]) THEN Obs[cm][ck][cq + 1]
             ELSE IF cq = -1 THEN ObsNeg[cm][ck] ELSE <<>>
